@@ -27,7 +27,8 @@ DESIGN_REF = "DESIGN.md section 6, C20"
 
 def sequence(r, thorough):
     L = pipeline.lab
-    labels = ["A", "B", "C", "zz", "0"]
+    # labels that a "clever" key order could confuse: numeric suffixes with leading zeros, prefixes, case, blanks
+    labels = r.choice([["A", "B", "C", "zz", "0"], ["A1", "A01", "A001", "A10", "A"], ["s1", "s10", "s2", "S1", "s1 "], ["A", "B", "C", "zz", "0"]])
     sites = {}
     lines = []
     nops = r.range(4, 40 if thorough else 14)
@@ -94,8 +95,12 @@ def sequence(r, thorough):
         elif k < 19:
             lines.append("getsite %s" % L(anylabel()))
         else:
-            lines.append("copy")
+            # copy: one of the two lattices is destroyed; fork/unfork: a copy is modified while the original stays alive
+            # and is returned to later (it must not have noticed)
+            lines.append(r.choice(["copy", "copy", "fork", "fork", "unfork"]))
         lines.append("dumplattice")
+    if "fork" in lines:
+        lines += ["unfork", "dumplattice"]
     return lines
 
 
